@@ -62,6 +62,12 @@ pub struct Script<'a> {
     pub end: EndAnswer,
     /// async only: bit j set = answer `Pending` once before read number j
     pub pending_mask: u64,
+    /// async only: bit j set = answer `Pending` before read number j and have the caller DROP the
+    /// `receive()` future and call `receive()` again (what `select!` does to a losing branch)
+    pub cancel_mask: u64,
+    /// like cancel_mask, but the future is dropped TWICE in a row before read number j (the second
+    /// receive() call gets no new data either)
+    pub cancel_twice_mask: u64,
 }
 
 #[derive(Default)]
@@ -70,6 +76,10 @@ pub struct ReaderState {
     pub reads: Cell<u64>,
     pub after_end: Cell<u64>,
     pend_done: Cell<u64>,
+    cancel_done: Cell<u64>,
+    cancel_twice_done: Cell<u64>,
+    pub cancel_requested: Cell<bool>,
+    pub cancellations: Cell<u64>,
     pub max_buf: Cell<usize>,
     pub empty_buf_reads: Cell<u64>,
 }
@@ -129,6 +139,19 @@ impl AsyncRead for AsyncReader<'_> {
     fn poll_read(self: Pin<&mut Self>, _cx: &mut Context<'_>, buf: &mut ReadBuf<'_>) -> Poll<io::Result<()>> {
         let st = self.st;
         let j = st.reads.get();
+        if j < 32 && self.script.cancel_twice_mask & (1 << j) != 0 && st.cancel_twice_done.get() & (0b11 << (2 * j)) != (0b11 << (2 * j)) {
+            // first and second cancellation before read j
+            let done = st.cancel_twice_done.get();
+            let bit = if done & (1 << (2 * j)) == 0 { 1u64 << (2 * j) } else { 1u64 << (2 * j + 1) };
+            st.cancel_twice_done.set(done | bit);
+            st.cancel_requested.set(true);
+            return Poll::Pending;
+        }
+        if j < 64 && self.script.cancel_mask & (1 << j) != 0 && st.cancel_done.get() & (1 << j) == 0 {
+            st.cancel_done.set(st.cancel_done.get() | (1 << j));
+            st.cancel_requested.set(true);
+            return Poll::Pending;
+        }
         if j < 64 && self.script.pending_mask & (1 << j) != 0 && st.pend_done.get() & (1 << j) == 0 {
             st.pend_done.set(st.pend_done.get() | (1 << j));
             return Poll::Pending;
@@ -185,9 +208,38 @@ fn drive<F: Future>(fut: F) -> Result<F::Output, Terminal> {
     }
 }
 
+enum Driven<T> {
+    Done(T),
+    Cancelled,
+    Hang,
+}
+
+/// like `drive`, but drops the future when the reader asked for a cancellation
+fn drive_cancellable<F: Future>(fut: F, st: &ReaderState) -> Driven<F::Output> {
+    let waker = noop_waker();
+    let mut cx = Context::from_waker(&waker);
+    let mut fut = pin!(fut);
+    let mut polls = 0u32;
+    loop {
+        polls += 1;
+        if polls > 200 {
+            return Driven::Hang;
+        }
+        match fut.as_mut().poll(&mut cx) {
+            Poll::Ready(v) => return Driven::Done(v),
+            Poll::Pending => {
+                if st.cancel_requested.replace(false) {
+                    st.cancellations.set(st.cancellations.get() + 1);
+                    return Driven::Cancelled; // the future is dropped here
+                }
+            }
+        }
+    }
+}
+
 /// A connection that has completed the handshake on its own greeting read.
 fn greeting_script() -> Script<'static> {
-    Script { stream: GREETING, cuts: &[], end: EndAnswer::Eof, pending_mask: 0 }
+    Script { stream: GREETING, cuts: &[], end: EndAnswer::Eof, pending_mask: 0, cancel_mask: 0, cancel_twice_mask: 0 }
 }
 
 /// Feed `script.stream` (after a handshake with a fixed greeting delivered in its own read) and
@@ -273,16 +325,17 @@ fn run_session_inner(flavor: Flavor, script: &Script<'_>, st: &ReaderState, max_
                 Err(t) => return Session { responses, end: t },
             };
             let end = loop {
-                match drive(conn.receive()) {
-                    Err(t) => break t,
-                    Ok(Ok(Some(r))) => {
+                match drive_cancellable(conn.receive(), st) {
+                    Driven::Hang => break Terminal::Hang,
+                    Driven::Cancelled => continue,
+                    Driven::Done(Ok(Some(r))) => {
                         if responses.len() >= max_responses {
                             break Terminal::TooMany;
                         }
                         responses.push(observe_response(&r));
                     }
-                    Ok(Ok(None)) => break Terminal::Clean,
-                    Ok(Err(e)) => break classify(&e),
+                    Driven::Done(Ok(None)) => break Terminal::Clean,
+                    Driven::Done(Err(e)) => break classify(&e),
                 }
             };
             if probe_after_end {
